@@ -1,1 +1,277 @@
-//! reference model `sixel` (filled in by the property that needs it)
+//! Reference sixel interpreter, written from the DEC sixel description (VT3xx programmer
+//! reference, "All about SIXELs"); shares no code with the library under test.
+//!
+//! Grammar accepted (anything else is a malformed stream):
+//!   ESC P <params> q  { '"' Pan;Pad;Ph;Pv | '#' Pc [;Pu;Px;Py;Pz] | '!' Pn <data> | '$' | '-' |
+//!   <data> }*  ESC \        with <data> = one byte 0x3f..=0x7e (six vertical pixels, bit 0 on top)
+//!
+//! The raster declared by the raster attributes starts out *unpainted*; a set bit paints the
+//! pixel with the colour currently held by the selected register, a clear bit leaves it alone.
+//! Paints outside the declared raster are counted, not stored.
+use std::collections::BTreeMap;
+
+#[derive(Debug, Clone, Default)]
+pub struct Decoded {
+    /// DCS parameters P1;P2;P3 as written (empty strings become None)
+    pub dcs_params: Vec<Option<u32>>,
+    /// Pan, Pad, Ph, Pv
+    pub raster: Option<(u32, u32, u32, u32)>,
+    pub width: usize,
+    pub height: usize,
+    /// painted colour (r,g,b in 0..=100) per raster pixel, row-major; None = never painted
+    pub pix: Vec<Option<[u8; 3]>>,
+    /// register -> colour, as defined (last definition wins)
+    pub registers: BTreeMap<u32, [u8; 3]>,
+    pub outside_paints: u64,
+    pub overpaints: u64,
+    pub undefined_used: Vec<u32>,
+    /// registers whose definition changed after they had painted something
+    pub redefined_after_use: Vec<u32>,
+    /// grammar-level oddities that are not fatal
+    pub problems: Vec<String>,
+    // statistics for coverage reporting
+    pub repeat_introducers: u64,
+    /// `!n?` -- a run of blank sixels
+    pub blank_repeats: u64,
+    /// literal `?` data bytes (blank sixel written out)
+    pub blank_literals: u64,
+    pub max_repeat: u32,
+    pub min_repeat: u32,
+    pub data_bytes: u64,
+    pub carriage_returns: u64,
+    pub newlines: u64,
+}
+
+impl Decoded {
+    pub fn unpainted(&self) -> usize {
+        self.pix.iter().filter(|p| p.is_none()).count()
+    }
+    pub fn get(&self, row: usize, col: usize) -> Option<[u8; 3]> {
+        self.pix[row * self.width + col]
+    }
+}
+
+fn number(b: &[u8], i: &mut usize) -> Option<u32> {
+    let start = *i;
+    let mut v: u64 = 0;
+    while *i < b.len() && b[*i].is_ascii_digit() {
+        v = (v * 10 + (b[*i] - b'0') as u64).min(u32::MAX as u64);
+        *i += 1;
+    }
+    if *i == start {
+        None
+    } else {
+        Some(v as u32)
+    }
+}
+
+/// `n ; n ; ...` -- a list of optional numbers
+fn params(b: &[u8], i: &mut usize) -> Vec<Option<u32>> {
+    let mut v = vec![number(b, i)];
+    while *i < b.len() && b[*i] == b';' {
+        *i += 1;
+        v.push(number(b, i));
+    }
+    v
+}
+
+pub fn decode(b: &[u8]) -> Result<Decoded, String> {
+    let mut d = Decoded { min_repeat: u32::MAX, ..Default::default() };
+    if b.len() < 2 || b[0] != 0x1b || b[1] != b'P' {
+        return Err("does not start with DCS (ESC P)".into());
+    }
+    let mut i = 2;
+    d.dcs_params = params(b, &mut i);
+    if d.dcs_params == vec![None] {
+        d.dcs_params.clear();
+    }
+    if b.get(i) != Some(&b'q') {
+        return Err(format!("DCS parameters are not followed by 'q' (offset {i})"));
+    }
+    i += 1;
+    let (mut x, mut y) = (0usize, 0usize);
+    let mut reg: u32 = 0;
+    let mut used: BTreeMap<u32, [u8; 3]> = BTreeMap::new();
+    let mut painted_any = false;
+    let mut terminated = false;
+    while i < b.len() {
+        let c = b[i];
+        match c {
+            0x1b => {
+                if b.get(i + 1) != Some(&b'\\') {
+                    return Err(format!("ESC at offset {i} is not the string terminator"));
+                }
+                if i + 2 != b.len() {
+                    return Err(format!("{} bytes after the string terminator", b.len() - i - 2));
+                }
+                terminated = true;
+                break;
+            }
+            b'"' => {
+                i += 1;
+                let p = params(b, &mut i);
+                if p.len() != 4 || p.iter().any(|v| v.is_none()) {
+                    return Err(format!("raster attributes need Pan;Pad;Ph;Pv, got {:?}", p));
+                }
+                if painted_any {
+                    d.problems.push("raster attributes after sixel data".into());
+                }
+                if d.raster.is_some() {
+                    d.problems.push("raster attributes given twice".into());
+                }
+                let (pan, pad, ph, pv) = (p[0].unwrap(), p[1].unwrap(), p[2].unwrap(), p[3].unwrap());
+                if ph as u64 * pv as u64 > 1 << 26 {
+                    return Err(format!("declared raster {ph}x{pv} too large for the reference interpreter"));
+                }
+                d.raster = Some((pan, pad, ph, pv));
+                d.width = ph as usize;
+                d.height = pv as usize;
+                d.pix = vec![None; d.width * d.height];
+            }
+            b'#' => {
+                i += 1;
+                let p = params(b, &mut i);
+                let Some(pc) = p[0] else {
+                    return Err(format!("'#' without a register number at offset {i}"));
+                };
+                match p.len() {
+                    1 => reg = pc,
+                    5 => {
+                        let (Some(pu), Some(px), Some(py), Some(pz)) = (p[1], p[2], p[3], p[4]) else {
+                            return Err(format!("colour definition with empty parameter: {:?}", p));
+                        };
+                        match pu {
+                            2 => {
+                                if px > 100 || py > 100 || pz > 100 {
+                                    d.problems.push(format!("colour #{pc} component out of 0..=100: {px};{py};{pz}"));
+                                }
+                                let col = [px.min(255) as u8, py.min(255) as u8, pz.min(255) as u8];
+                                if let Some(old) = used.get(&pc) {
+                                    if *old != col && !d.redefined_after_use.contains(&pc) {
+                                        d.redefined_after_use.push(pc);
+                                    }
+                                }
+                                d.registers.insert(pc, col);
+                            }
+                            1 => {
+                                d.problems.push(format!("colour #{pc} defined in HLS, which the reference interpreter does not convert"));
+                            }
+                            other => return Err(format!("colour coordinate system {other} (only 1=HLS, 2=RGB exist)")),
+                        }
+                        reg = pc;
+                    }
+                    n => return Err(format!("'#' with {n} parameters (1 selects, 5 define)")),
+                }
+            }
+            b'$' => {
+                x = 0;
+                d.carriage_returns += 1;
+                i += 1;
+            }
+            b'-' => {
+                x = 0;
+                y += 6;
+                d.newlines += 1;
+                i += 1;
+            }
+            b'!' | 0x3f..=0x7e => {
+                let mut count = 1u32;
+                if c == b'!' {
+                    i += 1;
+                    let Some(n) = number(b, &mut i) else {
+                        return Err(format!("'!' without a count at offset {i}"));
+                    };
+                    d.repeat_introducers += 1;
+                    d.max_repeat = d.max_repeat.max(n);
+                    d.min_repeat = d.min_repeat.min(n);
+                    if n == 0 {
+                        d.problems.push("repeat count 0".into());
+                    }
+                    count = n.max(1);
+                    match b.get(i) {
+                        Some(0x3f..=0x7e) => {}
+                        other => return Err(format!("repeat introducer not followed by a sixel data byte: {:?}", other)),
+                    }
+                }
+                let bits = b[i] - 0x3f;
+                if bits == 0 {
+                    if c == b'!' {
+                        d.blank_repeats += 1;
+                    } else {
+                        d.blank_literals += 1;
+                    }
+                }
+                i += 1;
+                d.data_bytes += 1;
+                if bits != 0 {
+                    let colour = match d.registers.get(&reg) {
+                        Some(c) => *c,
+                        None => {
+                            if !d.undefined_used.contains(&reg) {
+                                d.undefined_used.push(reg);
+                            }
+                            [255, 255, 255]
+                        }
+                    };
+                    used.insert(reg, colour);
+                    painted_any = true;
+                    for k in 0..count as usize {
+                        for bit in 0..6 {
+                            if bits >> bit & 1 == 1 {
+                                let (px, py) = (x + k, y + bit);
+                                if px < d.width && py < d.height {
+                                    let slot = &mut d.pix[py * d.width + px];
+                                    if slot.is_some() {
+                                        d.overpaints += 1;
+                                    }
+                                    *slot = Some(colour);
+                                } else {
+                                    d.outside_paints += 1;
+                                }
+                            }
+                        }
+                    }
+                }
+                x += count as usize;
+            }
+            other => return Err(format!("byte 0x{:02x} at offset {i} is not part of the sixel grammar", other)),
+        }
+    }
+    if !terminated {
+        return Err("no string terminator (ESC \\)".into());
+    }
+    if d.min_repeat == u32::MAX {
+        d.min_repeat = 0;
+    }
+    Ok(d)
+}
+
+#[cfg(test)]
+mod tests {
+    use super::*;
+
+    #[test]
+    fn small_picture() {
+        // 3x6 raster: column 0 red (all six), column 1 blank, column 2 top pixel blue
+        let s = b"\x1bPq\"1;1;3;6#0;2;100;0;0#1;2;0;0;100#0~$#1??@$-\x1b\\";
+        let d = decode(s).unwrap();
+        assert_eq!((d.width, d.height), (3, 6));
+        assert_eq!(d.get(0, 0), Some([100, 0, 0]));
+        assert_eq!(d.get(5, 0), Some([100, 0, 0]));
+        assert_eq!(d.get(0, 1), None);
+        assert_eq!(d.get(0, 2), Some([0, 0, 100]));
+        assert_eq!(d.get(1, 2), None);
+        assert_eq!(d.unpainted(), 6 + 5);
+        assert_eq!(d.outside_paints, 0);
+    }
+
+    #[test]
+    fn repeat_and_outside() {
+        let s = b"\x1bPq\"1;1;4;6#5;2;1;2;3#5!5~-~\x1b\\";
+        let d = decode(s).unwrap();
+        assert_eq!(d.unpainted(), 0);
+        assert_eq!(d.outside_paints, 6 + 6); // fifth column, and the band below
+        assert!(decode(b"\x1bPq#0;2;0;0;0~").is_err());
+        assert!(decode(b"\x1bPq!~\x1b\\").is_err());
+    }
+}
